@@ -149,13 +149,15 @@ def known_pairs():
     return [{"prop": f["property"], "pred": f["pred"]} for f in k.get("findings", [])]
 
 
-def console_family(work, name, insess, cmds, maxcalls, maxatt, kinds, auth=1, integ=1, codes="Codes3", dupcodes="CodesOk", gen_workers=1):
+def console_family(work, name, insess, cmds, maxcalls, maxatt, kinds, auth=1, integ=1, codes="Codes3", dupcodes="CodesOk", gen_workers=1, past=None):
     subst = dict(INSESSION="TRUE" if insess else "FALSE", CMDS=cmds, MAXCALLS=maxcalls, MAXATT=maxatt, KINDS=kinds,
                  AUTH=auth, INTEG=integ, CODES=codes, DUPCODES=dupcodes)
     t0 = time.time()
     scripts, n, gst = generate("MCGenConsole", "Gen_Console.cfg.tpl", subst, work, name, workers=gen_workers)
     t1 = time.time()
     hdr = json.loads(open(scripts).readline())
+    if past is not None:
+        scripts = with_past(scripts, work, name, past)
     traces, info = replay(scripts, work, name)
     t2 = time.time()
     tracecfg = os.path.join(work, name + ".tracecfg.json")
@@ -170,7 +172,7 @@ def console_family(work, name, insess, cmds, maxcalls, maxatt, kinds, auth=1, in
             "subst": subst}
 
 
-def handshake_family(work, name, family, tier, seed, opts=None, workers=16, metrics=False, race=False, isolate=False):
+def handshake_family(work, name, family, tier, seed, opts=None, workers=16, metrics=False, race=False, isolate=False, past=None):
     """GenHandshake scenarios -> replay -> TraceHandshake validation."""
     subst = dict(SEED=seed, FAMILY=family, TIER=tier)
     t0 = time.time()
@@ -188,6 +190,8 @@ def handshake_family(work, name, family, tier, seed, opts=None, workers=16, metr
                 d = json.loads(line)
                 d["opts"] = dict(d.get("opts") or {}, **opts)
                 o.write(json.dumps(d) + "\n")
+    if past is not None:
+        src = with_past(src, work, name, past)
     if metrics:
         traces, info = replay_sharded_procs(src, work, name)
     else:
@@ -204,7 +208,31 @@ def handshake_family(work, name, family, tier, seed, opts=None, workers=16, metr
             "subst": dict(subst, opts=opts)}
 
 
-def walk_family(work, name, module, cfg_tpl, family, tier, seed, workers=16, opts=None, extra_subst=None, race=False, metrics=False, isolate=False):
+def with_past(scripts, work, name, variant):
+    """The same scripts on a connection that has a past: the steps GenPast.tla evaluates to (TLC-generated, cached) go into
+    the header, and every script gets the option `past`. Nothing else changes - in particular no expectation."""
+    pfile, _, _ = generate("MCGenPast", "Gen_Cipher.cfg.tpl", dict(SEED=variant, FAMILY="past", TIER="quick"), work, "past-%d" % variant)
+    past = None
+    with open(pfile) as f:
+        for line in f:
+            d = json.loads(line)
+            if d.get("past") is True:
+                past = d["steps"]
+    if not past:
+        raise vlib.Inconclusive("GenPast produced no steps")
+    dst = os.path.join(work, name + ".past.ndjson")
+    with open(scripts) as f, open(dst, "w") as o:
+        for i, line in enumerate(f):
+            d = json.loads(line)
+            if i == 0:
+                d["past"] = past
+            else:
+                d["opts"] = dict(d.get("opts") or {}, past=True)
+            o.write(json.dumps(d) + "\n")
+    return dst
+
+
+def walk_family(work, name, module, cfg_tpl, family, tier, seed, workers=16, opts=None, extra_subst=None, race=False, metrics=False, isolate=False, past=None):
     """Scenarios whose expectation travels in `exp` (TraceWalk.tla)."""
     subst = dict(SEED=seed, FAMILY=family, TIER=tier)
     if extra_subst:
@@ -223,6 +251,8 @@ def walk_family(work, name, module, cfg_tpl, family, tier, seed, workers=16, opt
                 d = json.loads(line)
                 d["opts"] = dict(d.get("opts") or {}, **opts)
                 o.write(json.dumps(d) + "\n")
+    if past is not None:
+        src = with_past(src, work, name, past)
     if metrics:
         traces, info = replay_sharded_procs(src, work, name)
     else:
